@@ -226,11 +226,36 @@ func c16One(c *core.Ctx, r *core.Result, w *World, era drive.Era, placement stri
 		r.Count("inconclusive-"+outcomeClass(out), 1)
 		return
 	}
+	// the user's view of the bank ledger: get-bank must report the table row of the executing height
+	var apiBank *[4]int64
+	apiBankErr := ""
+	if hExec >= era.V4 {
+		raw, aerr := newAPI(run.D).call("get-bank", map[string]interface{}{"height": hExec})
+		if aerr != nil {
+			apiBankErr = aerr.Error()
+		} else {
+			var be struct {
+				Height       int64
+				BankAmount   int64
+				BankUsed     int64
+				PEGRequested int64
+			}
+			if json.Unmarshal(raw, &be) == nil {
+				apiBank = &[4]int64{be.Height, be.BankAmount, be.BankUsed, be.PEGRequested}
+			}
+		}
+	}
 	run.D.Close()
 	run.D = nil
 	v, err := ReadLedger(drive.DBFileOf(run.DBPath))
 	if err != nil {
 		panic(err)
+	}
+	if hExec >= era.V4 {
+		row, ok := v.Bank[hExec]
+		if ok && (apiBank == nil || apiBank[0] != int64(hExec) || apiBank[1] != row[0] || apiBank[2] != row[1] || apiBank[3] != row[2]) {
+			r.Violate(core.Violation{Key: key, Signature: "C16:get-bank-differs-from-bank-row:" + era.Name, Desc: fmt.Sprintf("get-bank(height %d) = %v (error %q), pn_bank row = %v", hExec, apiBank, apiBankErr, row)})
+		}
 	}
 	spot := v.Rates[hExec]
 	pooled := hExec >= era.V4
